@@ -9,6 +9,7 @@ mod calls;
 mod common;
 mod explore;
 mod fmt;
+mod fmtlen;
 mod json;
 mod num;
 mod plan;
@@ -123,6 +124,7 @@ fn run_spec(spec: &Spec) -> common::Report {
         "queue" => sc_queue::run(spec),
         "fmt01" => fmt::run_c01(spec),
         "fmt04" => fmt::run_c04(spec),
+        "fmtlen" => fmtlen::run(spec),
         "num" => num::run(spec),
         "calls" => calls::run(spec),
         "mutex" => sc_mutex::run(spec),
